@@ -57,8 +57,8 @@ def run(ctx, res):
     # "no leftovers from the aborted acquisition": whatever a worker maps from its input it releases whole,
     # also on the paths taken once the output refuses writes (abort)
     res.guard(RR.rule_drain_after_stop, prog, res, "video_filter_thread", {"process_data"}, passes=2)
-    res.guard(RR.rule_consume, prog, res, "process_data", "iterate")
-    res.guard(RR.rule_consume, prog, res, "video_sink_thread", "append")
+    res.guard(RR.rule_consume_file, prog, res, "process_data", "iterate")
+    res.guard(RR.rule_consume_file, prog, res, "video_sink_thread", "append")
     res.guard(RR.rule_pairs, prog, res, ["video_sink_thread", "process_data", "acquire_stop"])
     res.require_min("R-CONSUME", 2)
     res.require_min("PAIR", 4)
